@@ -144,6 +144,10 @@ type vfxCfg struct {
 	Mirror bool
 }
 
+// vfxKeyMirrorCancel: key of the finding "a request after a mirrored one is answered 503 although
+// the backend answered it" (shared by C03 and C07, see harness/C03/proposed_known.jsonl).
+const vfxKeyMirrorCancel = "mirrorPool-copy-cancelled-with-its-front-request-tears-down-reused-backend-connection-next-request-503-although-backend-answered"
+
 const (
 	vfxMirrorPrefix = "/vfmirror"
 	vfxMirrorHeader = "X-Vf-Mirror"
@@ -451,8 +455,11 @@ type vfxRig struct {
 	arrivals   map[string]int // request id -> how many times it reached the backend
 	mapper     *vfxMapper
 	mirrorSeen []*vfxSeen // what arrived under /vfmirror (copies sent by the mirrorPool)
-	lastReused bool       // the latest request went out on a kept-alive connection
-	reqID      int        // id of the latest request sent (tag X-Vf-Req-Id); received() only returns its records
+	// mirroredBefore: an exchange before the latest one carried the mirror header (a copy of it may
+	// still be around); mirroredNow: the latest one does
+	mirroredBefore, mirroredNow bool
+	lastReused                  bool // the latest request went out on a kept-alive connection
+	reqID                       int  // id of the latest request sent (tag X-Vf-Req-Id); received() only returns its records
 }
 
 func (r *vfxRig) backendHandler(w http.ResponseWriter, req *http.Request) {
@@ -1101,6 +1108,13 @@ func (r *vfxRig) probeBackend() error {
 // backend is reported as an error (inconclusive); otherwise the request is sent once more and the
 // second outcome is the one that is judged (transient = true).
 func (r *vfxRig) exchange(q *vfxRequest, sc *vfxScript) (resp *vfxResponse, seen []*vfxSeen, frontLog string, transient bool, err error) {
+	r.mirroredBefore = r.mirroredBefore || r.mirroredNow
+	r.mirroredNow = false
+	if r.cfg != nil && r.cfg.Mirror {
+		for _, kv := range q.Headers {
+			r.mirroredNow = r.mirroredNow || (strings.EqualFold(kv[0], vfxMirrorHeader) && kv[1] == "1")
+		}
+	}
 	for attempt := 0; ; attempt++ {
 		r.setScript(sc)
 		resp, err = r.do(q)
